@@ -8,7 +8,7 @@ import time
 
 from . import core, segment
 
-ALPHABET = ['a', 'B', '1', '9', '2', '0', '#', '<', '3', '!', ' ']
+ALPHABET = ['a', 'B', 'q', 'z', '1', '9', '2', '0', '#', '<', '3', '!', ' ']
 BASE_WORDS = ['pass', 'word', 'love', 'monkey', 'chair', 'table']
 
 
@@ -48,7 +48,8 @@ def main(pid, tier, seed):
     for n in range(1, 4):
         strings += [''.join(t) for t in itertools.product(ALPHABET, repeat=n)]
     longer = [''.join(rng.choice(ALPHABET) for _ in range(rng.choice([4, 5]))) for _ in range(2500 if tier == 'quick' else 40000)]
-    strings += sorted(set(longer))
+    walky = [''.join(rng.choice(['1', 'q', 'a', 'z', '2', '!', '#', '3']) for _ in range(rng.choice([4, 5]))) for _ in range(600 if tier == 'quick' else 8000)]
+    strings += sorted(set(longer) | set(walky))
     model = model_pipeline(strings)
     rec = segment.Recorder()
     drift = []
@@ -73,11 +74,10 @@ def main(pid, tier, seed):
             real.append((s[pos:pos + L], sec['k'], sec['n']))
             pos += L
         want = [(''.join(x['t']), x['k'], x['n']) for x in mfinal]
-        # the model has no keyboard stage: compare only when that heuristic did not fire on this string
         kfired = any(sec['k'] for sec in tr['snaps'][1]['sl'])
         if kfired:
             n_kfired += 1
-        elif real != want:
+        if real != want:
             drift.append({'password': s, 'real': real, 'model': want})
 
     # ---- code -> spec: fragment passwords under several multi-word histories ----
@@ -137,7 +137,7 @@ def main(pid, tier, seed):
            'rule': 'one trace = one real PCFGPasswordParser.parse call with the section list snapshotted after every detector stage and the '
                    'counter deltas; non-trivial = more than one final segment; distinct by password',
            'model_space_strings_parsed': len(strings),
-           'impl_conformance': {'compared': len(strings) - n_kfired, 'keyboard_stage_fired': n_kfired, 'result': 'drift' if drift else 'conforms', 'drift_examples': drift[:3]},
+           'impl_conformance': {'compared': len(strings), 'keyboard_stage_fired': n_kfired, 'result': 'drift' if drift else 'conforms', 'drift_examples': drift[:3]},
            'trace_validation': st, 'exhaustive': False, 'known_findings_reproduced': n_known, 'binding_selftest': selftest,
            'violation_histogram': verdict.histogram()}
     core.write_evidence(pid, tier, seed, 'model_checking', cov, time.time() - t0, violations=n_viol,
